@@ -7,6 +7,11 @@ from checkcfg import PROPS
 BASELINE = json.load(open('/root/.vp/BASELINE.json'))['cmd'] if os.path.exists('/root/.vp/BASELINE.json') else ''
 
 TEXT = {
+ "C12": dict(
+   technique="stateful property-based testing (rapid state machine) with an address-issuance reference model and an independent key derivation; restore compared with the statement's scan rule",
+   text="For gap limits 2..8, generated sequences of new-address requests (standard / staking), payments to arbitrary issued addresses, reorganisations removing recent payments, and wallet restarts are run on the real wallet; each issued address must equal the harness's own BIP-39/BIP-32 derivation at the next external index (class form), be distinct from all earlier ones, stay listed by GetAddresses (also after restart) with used == the best chain pays it; NewAddress must fail with the gap error exactly when none of the last gap-limit addresses has chain history and succeed otherwise. Finally the mnemonic is restored in a fresh instance with a generated index hint and the discovered address count must equal the scan rule (derive until gap-limit consecutive unused), which contains every funded address the rule can reach, with correct used flags after the rescan. One defect found (issued address vanished from the list after a reorg removed its first payment) was repaired (fix: 0304e7f). Exploration: sampled histories.",
+   note="Standard-class addresses are paid with standard outputs and staking-class addresses with staking outputs (what 'a payment to it' means for the other class form is not defined by the statement). Restore completeness is asserted for the addresses the scan rule can reach: a reorg that removes the payment an issuance relied on can leave a larger gap, which no wallet can repair. Wallets whose derivation path crosses the C14 known finding are not generated.",
+   ref="DESIGN.md §3 C12"),
  "C10": dict(
    technique="stateful property-based testing (rapid state machine) with a deposit-lifecycle reference model folded from the node's best chain and the pending set",
    text="Histories rich in staking outputs (frozen period drawn from the legal range incl. the minimum), old-style binding before the warm-up height and new-style binding after it, withdrawals of matured staking and old-binding deposits, pending versions of deposits and withdrawals, and reorganisations across deposit and withdrawal blocks. After every step GetStakingHistory / GetBindingHistory (with and without excludeWithdrawn) are compared as multisets with the model (tx, index, height, amount, staking address / holder + binding target, frozen period, withdrawn flag, spent-by-pending flag, carried transaction); Spendable / withdrawable_* flip at the consensus height (C01 audit, run here too); explicit-input withdrawals built by CreateRawTransaction must carry sequence F+1 / binding lock, and the harness's replica of calcSequenceLock + SequenceLockActive must accept the built staking withdrawal exactly from the height at which the deposit is reported withdrawable. Exploration: sampled histories.",
